@@ -680,7 +680,46 @@ def c12(ctx):
             ops.append(('probe', 0))
             cases.append((name, ops)); note_case(res, name, ops)
     run_regions(ctx, res, cases, lambda e, ops, obs, mo=None: ref_oracle(e, ops, obs, [dense_clause], mo), 'full')
+    span_cases(ctx, res, 'C12')
     return res
+
+def span_cases(ctx, res, prop):
+    """Offsets beyond u32::MAX under ConsecutiveIndexPairs / FlatStack, reached cheaply through a user-defined region
+    that meets the Region contract and returns dense pairs of arbitrary width (harness/src/span.rs).  Bounded-exhaustive:
+    every sequence of L operations over push(w), w in {0, 1, 5, 2^31-5, 2^31, 2^32, 2^32+7, 2^33}, clear and
+    merge_regions.  Implementation-side oracle only (the k-th push since the last reset returns k; index k reads width_k)."""
+    import itertools
+    L = 4 if not ctx.thorough else 5
+    alpha = ['0', '1', '5', '%x' % (2 ** 31 - 5), '%x' % 2 ** 31, '%x' % 2 ** 32, '%x' % (2 ** 32 + 7), '%x' % 2 ** 33, 'c', 'm']
+    seqs = [list(q) for q in itertools.product(alpha, repeat=L)]
+    kinds = ['iopt', 'ilist', 'vec', 'fs_iopt', 'fs_ilist']
+    hist = [(k, q) for q in seqs for k in kinds]
+    nfail = 0
+    for prof in PROFILES:
+        obs = lib.run_impl('span', hist, prof)
+        for (k, q), io in zip(hist, obs):
+            res.evaluations += 1
+            io = [g[0] if g else '' for g in io]
+            f = None; want = []; 
+            for t, op in enumerate(q):
+                if t >= len(io): f = f'op {t}: no observation'; break
+                if op in ('c', 'm'):
+                    want = []
+                    if io[t] != 'N': f = f'op {t} ({op}): observed {io[t]}'; break
+                else:
+                    if io[t] != '%x' % len(want): f = f'op {t}: push of width {op} returned index {io[t]}, it is push number {len(want)} since the last reset'; break
+                    want.append(int(op, 16))
+            if f is None:
+                if len(io) != len(q) + 1: f = f'no final reads: {io}'
+                else:
+                    got = gen.parse(io[-1])
+                    if got != [('S', w) for w in want]: f = f'final reads {io[-1]}, pushed widths {[hex(w) for w in want]}'
+            if f:
+                nfail += 1
+                res.failures.append({'kind': 'oracle', 'entry': 'span/' + k, 'rust_type': 'ConsecutiveIndexPairs<SpanRegion, _> (user-defined dense region, harness/src/span.rs)',
+                                     'profile': prof, 'history': q, 'what': f, 'observed': io, 'known': None})
+        res.per_profile[prof] = res.per_profile.get(prof, 0) + len(hist)
+    res.extra['span_exhaustive'] = f'{len(hist)} histories: all sequences of length {L} over 8 widths (up to 2^33) + clear + merge, 5 container arrangements'
 
 # ------------------------------------------------------------------ C13
 def c13(ctx):
